@@ -150,8 +150,15 @@ def stuff(line):
     return "." + line if line.startswith(".") else line
 
 
-def getinfo_vector(kvs, seg="whole", rng=None, noise="none"):
-    """kvs: list of (key, block, lines)"""
+def _single(fired, key):
+    """the *_single wrappers hand back the bare value: put it under its key so that one projection serves both forms"""
+    def got(v):
+        fired.append(v if isinstance(v, failure.Failure) else {key: v})
+    return got
+
+
+def getinfo_vector(kvs, seg="whole", rng=None, noise="none", api="dict"):
+    """kvs: list of (key, block, lines); api: get_info (dict) or, for one key, get_info_single"""
     run = cc.Run(wrap=False)
     p = run.proto
     fired = []
@@ -163,7 +170,11 @@ def getinfo_vector(kvs, seg="whole", rng=None, noise="none"):
         p.get_info(*[k for k, _, _ in kvs]).addBoth(twin.append)
     else:
         broke = _noise(p, noise, "before")
-    p.get_info(*[k for k, _, _ in kvs]).addBoth(fired.append)
+    if api == "single" and len(kvs) == 1:
+        p.get_info_single(kvs[0][0]).addBoth(_single(fired, kvs[0][0]))
+    else:
+        api = "dict"
+        p.get_info(*[k for k, _, _ in kvs]).addBoth(fired.append)
     if noise != "twin@before":
         broke = broke or _noise(p, noise, "during")
     wire = []
@@ -190,15 +201,18 @@ def getinfo_vector(kvs, seg="whole", rng=None, noise="none"):
         res = failure.Failure(RuntimeError("the identical request queued before this one got %r" % (twin[:1],)))
     return dict(p="C13", cmd="GETINFO", kvs=[dict(key=b(k), block=bl, lines=[b(l) for l in ls]) for k, bl, ls in kvs],
                 wire=[b(w) for w in wire], res=_result(res, [k for k, _, _ in kvs]), seg=seg, noise=noise,
-                key=[], unset=False, vals=[])
+                key=[], unset=False, vals=[], api=api)
 
 
-def getconf_vector(key, unset, vals, seg="whole", rng=None, noise="none"):
+def getconf_vector(key, unset, vals, seg="whole", rng=None, noise="none", api="dict"):
     run = cc.Run(wrap=False)
     p = run.proto
     fired = []
     broke = _noise(p, noise, "before")
-    p.get_conf(key).addBoth(fired.append)
+    if api == "single":
+        p.get_conf_single(key).addBoth(_single(fired, key))
+    else:
+        p.get_conf(key).addBoth(fired.append)
     broke = broke or _noise(p, noise, "during")
     if unset:
         wire = ["250 %s" % key]
@@ -213,7 +227,7 @@ def getconf_vector(key, unset, vals, seg="whole", rng=None, noise="none"):
     if broke is not None:
         res = broke
     return dict(p="C13", cmd="GETCONF", key=b(key), unset=unset, vals=[b(v) for v in vals],
-                wire=[b(w) for w in wire], res=_result(res, [key]), seg=seg, noise=noise, kvs=[])
+                wire=[b(w) for w in wire], res=_result(res, [key]), seg=seg, noise=noise, kvs=[], api=api)
 
 
 def words(alpha, n):
